@@ -1003,9 +1003,13 @@ def run_traced(rk, kind, ham, prob, script=None, max_attempts=20000):
     err = None
     out = None
     out_c = None
+    err_c = None
     if script is None or prob.get("warm"):
         # compiled run first: also makes sure every callee is compiled before names are patched
-        out_c = drv(**kw_c)
+        try:
+            out_c = drv(**kw_c)
+        except Exception as ex:  # noqa  (a driver that raises on a valid input is reported by the caller)
+            err_c = repr(ex)
     try:
         with patched(rk, **patches):
             out = py_func(drv)(**kw)
@@ -1013,7 +1017,7 @@ def run_traced(rk, kind, ham, prob, script=None, max_attempts=20000):
         err = "stall:" + str(ex)
     except Exception as ex:
         err = repr(ex)
-    return dict(log=log, out=out, err=err, out_compiled=out_c, kw_compiled=kw_c, drv=drv, y0=y0, te=te, prob=prob, kind=kind, ham=ham)
+    return dict(log=log, out=out, err=err, out_compiled=out_c, err_compiled=err_c, kw_compiled=kw_c, drv=drv, y0=y0, te=te, prob=prob, kind=kind, ham=ham)
 
 
 def project(run):
@@ -1199,6 +1203,7 @@ def project(run):
 
 
 DRIVERS = [("rk45", False), ("rk45", True), ("dop853", False), ("dop853", True)]
+REAL_MAX_ATTEMPTS = 2000     # cap on attempted steps of a real traced run (keeps trace validation linear)
 TICK = 0.125
 
 
@@ -1404,8 +1409,12 @@ def part_driver(ck: Check, T: StepTargets):
         p, sc = B.scripted_problem(uniq[0], ham)
         p["warm"] = True
         run = run_traced(rk, kind, ham, p, script=sc)
-        if run["err"] is not None and not uniq[0]["script"]:
-            pass
+        if run["err_compiled"] is not None:
+            ck.violation(f"{driver_name(kind, ham)}|driver-raises",
+                         f"compiled {driver_name(kind, ham)} raises {run['err_compiled']} on a valid constant-slope problem "
+                         f"(t_eval = {p['t_eval']})",
+                         {"kind": "driver-script", "driver": driver_name(kind, ham), "behaviour": uniq[0],
+                          "why": run["err_compiled"]})
 
     tm = {"model_and_generation_and_warmup_s": round(time.time() - t_start, 1)}
     t_mark = time.time()
@@ -1452,10 +1461,17 @@ def part_driver(ck: Check, T: StepTargets):
     for kind, ham in DRIVERS:
         for i in range(n_real):
             p = B.real_problem(rnd, ham)
-            run = run_traced(rk, kind, ham, p, max_attempts=60000)
+            run = run_traced(rk, kind, ham, p, max_attempts=REAL_MAX_ATTEMPTS)
             if run["err"] is not None and str(run["err"]).startswith("stall"):
+                # more attempts than any of these problems needs (unchanged tree: <= 700): not traced further
                 stats["stalled"] += 1
                 continue
+            if run["err_compiled"] is not None:
+                ck.violation(f"{driver_name(kind, ham)}|driver-raises",
+                             f"compiled {driver_name(kind, ham)} raises {run['err_compiled']} on a smooth problem",
+                             {"kind": "driver-trace", "driver": driver_name(kind, ham), "source": "real",
+                              "what": {k: (list(v) if hasattr(v, "__len__") else (None if v == np.inf else v))
+                                       for k, v in p.items() if k not in ("f", "jac", "clmo")}})
             tr, info = project(run)
             ck.count((driver_name(kind, ham), "real", i, json.dumps(tr["cfg"])), info["attempts"] >= 3)
             stats["attempts"] += info["attempts"]
@@ -1476,6 +1492,9 @@ def part_driver(ck: Check, T: StepTargets):
                                              for k, v in p.items() if k not in ("f", "jac", "clmo")}, run["err"]))
     n_real_tr = sum(1 for m in meta if m[2] == "real")
     ck.part("driver_real_traces", traces=n_real_tr, **stats)
+    if stats["stalled"] > n_real * len(DRIVERS) // 2:
+        ck.notes.append(f"{stats['stalled']} of {n_real * len(DRIVERS)} real problems needed more than {REAL_MAX_ATTEMPTS} "
+                        f"attempted steps and were not traced (unchanged tree: none)")
     if extra:
         ratios = [abs(en / sp / abs(h) - 1.0) for (en, cf, sp, h) in extra if sp > 0 and en > 0]
         hs = [abs(h) for (en, cf, sp, h) in extra]
@@ -1597,6 +1616,8 @@ def do_replay(path, tier):
             tr, info = project(run)
             why = compare_scripted(b, run, tr, info)
             clause = classify_driver_trace(tr, run["err"])
+            if run["err_compiled"] is not None:
+                why, clause = run["err_compiled"], "driver-raises"
             print(json.dumps({"driver": dn, "why": why, "clause": clause,
                               "nodes": None if info["nodes"] is None else [float(x) for x in info["nodes"]]}, indent=1))
             still = why is not None and clause is not None
@@ -1608,12 +1629,14 @@ def do_replay(path, tier):
                 p.update(jac=B.jac2, clmo=B.clmo2)
             else:
                 p["f"] = B.smooth
-            run = run_traced(B.rk, kd, ham, p, max_attempts=60000)
+            run = run_traced(B.rk, kd, ham, p, max_attempts=REAL_MAX_ATTEMPTS)
             tr, info = project(run)
             _, rej = validate_traces(SPEC / "trace" / "StepDriverTrace.tla", CFG / "StepDriverTrace.Strict.cfg", [tr], env=JENV)
             clause = classify_driver_trace(tr, run["err"])
+            if run["err_compiled"] is not None:
+                clause = "driver-raises"
             print(json.dumps({"driver": dn, "rejected": {str(k): str(v[0]) for k, v in rej.items()}, "clause": clause}, indent=1))
-            still = bool(rej) and clause is not None
+            still = (bool(rej) and clause is not None) or run["err_compiled"] is not None
     else:
         raise MachineryError(f"unknown replay kind {kind}")
     if still:
